@@ -157,6 +157,10 @@ type Lab struct {
 	nUpdates  int
 	// evlog, when set, receives one JSON line per event, written synchronously (the process may die at any moment).
 	evlog *os.File
+	// slowReadNth > 0: the slowReadNth-th Read of the vault returns its (already fetched) result slowReadUs µs late — the
+	// harness owns this piece of the schedule (API lab: a Start that holds a stale read while another Start runs).
+	slowReadNth, slowReadUs int
+	nReads                  int
 }
 
 // LogLine is the on-disk form of an event (write-fault child runs).
@@ -593,6 +597,21 @@ func (v *RecVault) UpdateAction(ctx context.Context, a *workflow.Action) error {
 	w := &WriteRec{Obj: workflow.OTAction, ID: a.ID, State: *a.State, Attempts: CopyAttempts(a.Attempts)}
 	w.Full = copyAction(a)
 	return v.record(w, func() error { return v.Vault.UpdateAction(ctx, a) })
+}
+
+// Read forwards to the inner vault; a chosen read returns late (see Lab.slowReadNth).
+func (v *RecVault) Read(ctx context.Context, id uuid.UUID) (*workflow.Plan, error) {
+	p, err := v.Vault.Read(ctx, id)
+	l := v.lab
+	l.mu.Lock()
+	l.nReads++
+	slow := l.slowReadNth > 0 && l.nReads == l.slowReadNth
+	us := l.slowReadUs
+	l.mu.Unlock()
+	if slow {
+		time.Sleep(time.Duration(us) * time.Microsecond)
+	}
+	return p, err
 }
 
 // Recovery forwards storage.Recovery when the inner vault has it.
